@@ -18,6 +18,8 @@ structure BkState where
   unacked : List (Nat × List Nat) := []
   sawQos2 : List Nat := []
   c11skip : List Nat := []      -- connections whose client acknowledged a packet id that was not in transit
+  -- C09 oracle bookkeeping: (client id, packet id) of outbound QoS 2 messages for which the client has sent PUBREC
+  pubrecd : List (Str × Nat) := []
 
 def kvGet (args : List String) (k : String) : Option String :=
   args.findSome? fun a =>
@@ -208,6 +210,8 @@ def brokerOpCore (st : BkState) (impl : String) : List String → Option (BkStat
     let e := ((← parseHex cid), (← parseHex topic), rw == "w")
     some ({ st with srv := { st.srv with aclDeny := st.srv.aclDeny ++ [e] } }, "-", "ok", "-")
   | ["bk.pubhook", topic, mode] => do
+    -- a wrapped verdict (`fmt.Errorf("…: %w", ErrRejectPacket)`) is the same verdict
+    let mode := if mode == "wreject" then "reject" else if mode == "wignore" then "ignore" else mode
     some ({ st with srv := { st.srv with pubHook := assocSet st.srv.pubHook (← parseHex topic) mode } }, "-", "ok", "-")
   | "bk.conn" :: n :: ver :: clean :: cid :: kv => do
     let n ← n.toNat?
@@ -224,6 +228,12 @@ def brokerOpCore (st : BkState) (impl : String) : List String → Option (BkStat
     if st.closedSeen.contains n || !(st.order.contains n) then some (st, "no-conn", "ok", "-") else
     let pk ← parseInPk (connVer st n) rest
     let (st, out) := stepSearch st (.recv n pk) impl none
+    some (st, out, "ok", "-")
+  | "bk.sendcut" :: n :: rest => do
+    let n ← n.toNat?
+    if st.closedSeen.contains n || !(st.order.contains n) then some (st, "no-conn", "ok", "-") else
+    let pk ← parseInPk (connVer st n) rest
+    let (st, out) := stepSearch st (.recvCut n pk) impl none [n]
     some (st, out, "ok", "-")
   | ["bk.drop", n] => do
     let n ← n.toNat?
